@@ -319,6 +319,17 @@ def check(cx):
     pushes = [e for e in wfb.events if is_call(e, 'push') and e.data['args'] == [field(P('self'), 'buffer'), P('msg')] and e.pc == T]
     if not okf or len(pushes) != 1:
         r5.violation('BufferedLineStream|order', 'buffered lines are not appended and drained in order', loc=ffl)
+    r5.instance('feed buffers the line it is given, unaltered')
+    for e in wfb.events:
+        if e.kind == 'call' and not e.data.get('local') and e.data.get('args') and e.data['args'][0] == P('msg') and \
+                (e.data['name'] in MUTATORS or e.data['name'] in ('truncate', 'replace_range', 'make_ascii_lowercase', 'make_ascii_uppercase',
+                                                                    'split_off', 'pop', 'remove', 'insert', 'insert_str', 'retain', 'drain', 'clear')) \
+                and _recv_mut(e, prog):
+            r5.violation('BufferedLineStream::feed|line-altered|%s' % e.data['name'], 'an outgoing line is changed (%s) between the handler and '
+                         'the socket' % e.data['name'], loc=cx.loc(e.node))
+        if e.kind == 'assign' and not e.data.get('init') and root_of(e.data['lhs']) == P('msg'):
+            r5.violation('BufferedLineStream::feed|line-altered|assign', 'an outgoing line is changed between the handler and the socket',
+                         loc=cx.loc(e.node))
 
     # ---------------------------------------------------------------- R13.6 free text last and colon-introduced
     r6 = cx.rule('R13.6', 'free text last, after " :"', floor=10, kind='template')
